@@ -132,7 +132,10 @@ def replay(path):
     pid = obj['property']
     mod = importlib.import_module(f'harness.{pid.lower()}')
     C.import_prysm()
-    print(json.dumps(obj.get('red'), indent=1, default=str)[:3000])
+    for r in obj.get('red', []):
+        r = dict(r)
+        r.pop('log_tail', None)
+        print('red:', json.dumps(r, default=str)[:600])
     if obj.get('failing_input') is None:
         print('no failing input recorded: the replay names what no longer checks:',
               json.dumps(obj.get('what_no_longer_checks'), indent=1))
